@@ -443,6 +443,28 @@ template <> struct Tr<Prod> {
 };
 
 // ---------------------------------------------------------------------------------------------------------
+// direct check that a CONST argument (an object distinct from the receiver) comes back from a call as it went in:
+// a deep copy taken before the call is compared, with the library's own operator==, with a copy taken after the call
+// (the comparison runs on copies so that it does not move the lazy state of the argument itself; a copy inherits a
+// corrupted representation, e.g. a constraint system left with the wrong topology), both containments are asked, the
+// dimension must be the same and OK() must hold.  Printed as:  argck dim=1 ok=1 eq=1 sub=1 sup=1   (2 = exception)
+template <class D> static int guarded_eq(const D& a, const D& b) { try { return (a == b) ? 1 : 0; } catch (...) { return 2; } }
+template <class D> static int guarded_contains(const D& a, const D& b) { try { return a.contains(b) ? 1 : 0; } catch (...) { return 2; } }
+template <class D> struct ArgCheck {
+  D* before; bool was_ok;
+  ArgCheck(const D& x, const D& y) : before(0), was_ok(true) { if (&x != &y) { before = new D(y); was_ok = y.OK(); } }
+  ~ArgCheck() { delete before; }
+  void report(const D& y) {
+    if (before == 0 || !was_ok) return;
+    int okk = 2, dim = 2, eq = 2, sub = 2, sup = 2;
+    try { okk = y.OK() ? 1 : 0; } catch (...) {}
+    try { dim = (y.space_dimension() == before->space_dimension()) ? 1 : 0; } catch (...) {}
+    try { D after(y); eq = guarded_eq(after, *before); sub = guarded_contains(after, *before); sup = guarded_contains(*before, after); } catch (...) {}
+    std::cout << "argck dim=" << dim << " ok=" << okk << " eq=" << eq << " sub=" << sub << " sup=" << sup << "\n";
+  }
+};
+
+// ---------------------------------------------------------------------------------------------------------
 // the interpreter of one case, for a semantic domain D
 template <class D> struct Runner {
   typedef std::map<int, D*> Pool;
@@ -474,7 +496,11 @@ template <class D> struct Runner {
         if (!common_un(x, op, tk)) { tk.i = save;
           if (!Tr<D>::un(x, op, tk)) { tk.i = save;
             const D& y = *get(tk.nextl());
-            if (!common_bin(x, op, y, ret) && !Tr<D>::bin(x, op, y, tk, pool, ret)) throw CaseErr("unknown op " + op);
+            ArgCheck<D> ac(x, y);
+            try { if (!common_bin(x, op, y, ret) && !Tr<D>::bin(x, op, y, tk, pool, ret)) throw CaseErr("unknown op " + op); }
+            catch (const CaseErr&) { throw; }
+            catch (...) { ac.report(y); throw; }
+            ac.report(y);
           }
         }
       }
@@ -482,7 +508,11 @@ template <class D> struct Runner {
     }
     else if (cmd == "qry") {
       int id = tk.nextl(); const D& x = *get(id); std::string q = tk.next(); const D& y = *get(tk.nextl()); std::string ret;
-      if (!common_qry(x, q, y, ret) && !Tr<D>::qry(x, q, y, ret)) throw CaseErr("unknown query " + q);
+      ArgCheck<D> ac(x, y);
+      try { if (!common_qry(x, q, y, ret) && !Tr<D>::qry(x, q, y, ret)) throw CaseErr("unknown query " + q); }
+      catch (const CaseErr&) { throw; }
+      catch (...) { ac.report(y); throw; }
+      ac.report(y);
       std::cout << "res ok ret " << ret << "\n";
     }
     else if (cmd == "obs") {
